@@ -2,11 +2,203 @@
 
 use crate::codec::{dec_value, enc_value};
 use crate::tlc::{Run, Tlc};
-use crate::util::{tool_error, Ctx};
+use crate::util::{tool_error, Ctx, Rng};
 use crate::xml::table_model_xml;
 use dmntk_feel::context::FeelContext;
 use dmntk_feel::Name;
 use serde_json::{json, Value as J};
+
+
+// ---- tables drawn at random (seeded), in the record format of Gen_C03: trees for the specification, token texts for
+// ---- the DMN XML. Up to four inputs (numbers, strings), three output components, eight rules; every hit policy.
+
+fn num_tree(m: i64) -> (J, Vec<String>) {
+  (json!({"n": "num", "ip": m.to_string(), "fp": "", "m": m, "e": 0}), vec![m.to_string()])
+}
+
+fn str_tree(s: &str) -> (J, Vec<String>) {
+  (json!({"n": "str", "s": s, "cp": crate::codec::cps(s)}), vec![format!("\"{}\"", s)])
+}
+
+fn lit(rng: &mut Rng, numeric: bool) -> (J, Vec<String>) {
+  if numeric {
+    num_tree(rng.below(6) as i64)
+  } else {
+    str_tree(*rng.pick(&["a", "b", "c", "ab"]))
+  }
+}
+
+/// One unary test that is not a list: a literal, a comparison or an interval.
+fn simple_test(rng: &mut Rng, numeric: bool) -> (J, Vec<String>) {
+  match rng.below(if numeric { 10 } else { 7 }) {
+    0..=3 => lit(rng, numeric),
+    4 | 5 => {
+      let (op, sym) = *rng.pick(&[("utlt", "<"), ("utle", "<="), ("utgt", ">"), ("utge", ">=")]);
+      let (t, mut x) = lit(rng, numeric);
+      let mut toks = vec![sym.to_string()];
+      toks.append(&mut x);
+      (json!({"n": op, "a": t}), toks)
+    }
+    _ => {
+      let (lo, mut tl) = lit(rng, numeric);
+      let (hi, mut th) = lit(rng, numeric);
+      let (lc, hc) = (rng.chance(1, 2), rng.chance(1, 2));
+      let mut toks = vec![if lc { "[" } else { "(" }.to_string()];
+      toks.append(&mut tl);
+      toks.push("..".to_string());
+      toks.append(&mut th);
+      toks.push(if hc { "]" } else { ")" }.to_string());
+      (json!({"n": "range", "lo": lo, "lc": lc, "hi": hi, "hc": hc}), toks)
+    }
+  }
+}
+
+fn test_list(rng: &mut Rng, numeric: bool, n: usize) -> (Vec<J>, Vec<String>) {
+  let mut items = vec![];
+  let mut toks = vec![];
+  for k in 0..n {
+    let (t, mut x) = simple_test(rng, numeric);
+    if k > 0 {
+      toks.push(",".to_string());
+    }
+    toks.append(&mut x);
+    items.push(t);
+  }
+  (items, toks)
+}
+
+/// An input entry: `-`, one test, a list of tests, or a negated list.
+fn input_entry(rng: &mut Rng, numeric: bool) -> (J, Vec<String>) {
+  match rng.below(10) {
+    0..=2 => (json!({"n": "any"}), vec!["-".to_string()]),
+    3..=5 => simple_test(rng, numeric),
+    6 | 7 => {
+      let n = 2 + rng.below(4) as usize;
+      let (items, toks) = test_list(rng, numeric, n);
+      (json!({"n": "elist", "items": items}), toks)
+    }
+    _ => {
+      let n = 1 + rng.below(3) as usize;
+      let (items, mut toks) = test_list(rng, numeric, n);
+      let mut all = vec!["not".to_string(), "(".to_string()];
+      all.append(&mut toks);
+      all.push(")".to_string());
+      (json!({"n": "notlist", "items": items}), all)
+    }
+  }
+}
+
+fn value_of(tree: &J) -> J {
+  if tree["n"] == "num" {
+    // the value encoding is canonical: no trailing zeros in the mantissa (10 is 1E+1)
+    let (mut m, mut e) = (tree["m"].as_i64().unwrap_or(0), 0);
+    while m != 0 && m % 10 == 0 {
+      m /= 10;
+      e += 1;
+    }
+    json!({"k": "num", "m": m, "e": e})
+  } else {
+    json!({"k": "str", "cp": tree["cp"]})
+  }
+}
+
+pub fn random_table(rng: &mut Rng) -> J {
+  let n_in = 1 + rng.below(4) as usize;
+  let n_out = if rng.chance(2, 3) { 1 } else { 2 + rng.below(2) as usize };
+  let n_rules = rng.below(9) as usize;
+  let hp = *rng.pick(&["U", "A", "P", "F", "R", "O", "C", "C+", "C<", "C>", "C#"]);
+  let numeric_in: Vec<bool> = (0..n_in).map(|_| rng.chance(2, 3)).collect();
+  // output components: numbers from a small pool (so that ANY / PRIORITY / aggregators have something to work on) or strings
+  let numeric_out: Vec<bool> = (0..n_out).map(|_| rng.chance(3, 4)).collect();
+  let out_pool = |rng: &mut Rng, numeric: bool| -> (J, Vec<String>) {
+    if numeric {
+      num_tree(*rng.pick(&[10, 20, 30, 40]))
+    } else {
+      str_tree(*rng.pick(&["lo", "hi", "mid"]))
+    }
+  };
+  let mut ins = vec![];
+  for (k, numeric) in numeric_in.iter().enumerate() {
+    let (allowed, allowedtext) = if rng.chance(1, 6) {
+      let n = 1 + rng.below(4) as usize;
+      let (items, toks) = test_list(rng, *numeric, n);
+      (json!({"n": "elist", "items": items}), toks)
+    } else {
+      (json!({"n": "none"}), vec![])
+    };
+    ins.push(json!({"name": format!("x{}", k + 1), "ty": if *numeric { "number" } else { "string" }, "allowed": allowed, "allowedtext": allowedtext}));
+  }
+  let mut rules = vec![];
+  for _ in 0..n_rules {
+    let (mut ri, mut rit, mut ro, mut rot) = (vec![], vec![], vec![], vec![]);
+    for numeric in &numeric_in {
+      let (t, x) = input_entry(rng, *numeric);
+      ri.push(t);
+      rit.push(x);
+    }
+    for numeric in &numeric_out {
+      // mostly literals; now and then an expression over the first input
+      let (t, x) = if *numeric && numeric_in[0] && rng.chance(1, 8) {
+        (json!({"n": "add", "a": {"n": "name", "id": "x1"}, "b": {"n": "num", "ip": "10", "fp": "", "m": 10, "e": 0}}), vec!["x1".to_string(), "+".to_string(), "10".to_string()])
+      } else {
+        out_pool(rng, *numeric)
+      };
+      ro.push(t);
+      rot.push(x);
+    }
+    rules.push(json!({"ins": ri, "outs": ro, "instext": rit, "outstext": rot}));
+  }
+  let mut outs = vec![];
+  for (k, numeric) in numeric_out.iter().enumerate() {
+    // output values (the priority list): for the priority policies mostly complete, otherwise now and then
+    let with_prio = if hp == "P" || hp == "O" { rng.chance(5, 6) } else { rng.chance(1, 8) };
+    let (mut prio, mut priotext) = (vec![], vec![]);
+    if with_prio {
+      let mut pool: Vec<(J, Vec<String>)> = if *numeric { [30, 10, 40, 20].iter().map(|m| num_tree(*m)).collect() } else { ["hi", "lo", "mid"].iter().map(|s| str_tree(s)).collect() };
+      if rng.chance(1, 5) {
+        pool.pop(); // one value missing from the list
+      }
+      let rot = rng.below(pool.len() as u64) as usize;
+      pool.rotate_left(rot);
+      for (i, (t, mut x)) in pool.into_iter().enumerate() {
+        if i > 0 {
+          priotext.push(",".to_string());
+        }
+        priotext.append(&mut x);
+        prio.push(value_of(&t));
+      }
+    }
+    let (def, deftext) = if rng.chance(1, 4) {
+      let (t, x) = out_pool(rng, *numeric);
+      (value_of(&t), x)
+    } else {
+      (json!({"k": "none"}), vec![])
+    };
+    outs.push(json!({"name": if n_out == 1 { String::new() } else { format!("o{}", k + 1) }, "prio": prio, "priotext": priotext, "def": def, "deftext": deftext}));
+  }
+  let mut inputs = vec![];
+  for _ in 0..8 {
+    let tuple: Vec<J> = numeric_in
+      .iter()
+      .map(|numeric| {
+        if rng.chance(1, 25) {
+          json!({"k": "null"})
+        } else if *numeric {
+          match rng.below(12) {
+            0 => json!({"k": "num", "m": 25, "e": -1}),
+            1 => json!({"k": "num", "m": 20, "e": -1}),
+            2 => json!({"k": "num", "m": 300, "e": -2}),
+            _ => json!({"k": "num", "m": rng.below(6) as i64, "e": 0}),
+          }
+        } else {
+          json!({"k": "str", "cp": crate::codec::cps(*rng.pick(&["a", "b", "c", "ab", "d"]))})
+        }
+      })
+      .collect();
+    inputs.push(json!(tuple));
+  }
+  json!({"fam": "RANDOM", "hp": hp, "ins": ins, "outs": outs, "rules": rules, "inputs": inputs})
+}
 
 /// Loads the table as DMN XML and evaluates decision `d` for every input tuple.
 pub fn run_table(t: &J) -> J {
@@ -51,6 +243,13 @@ pub fn check(mut ctx: Ctx, replay: Option<J>) -> ! {
     for t in &tables {
       recs.push(run_table(t));
     }
+    // tables drawn at random up to the full bound of the property's statement
+    let mut rng = Rng::new(ctx.seed);
+    let n_random = if quick { 600 } else { 12000 };
+    for _ in 0..n_random {
+      recs.push(run_table(&random_table(&mut rng)));
+    }
+    ctx.cov("random_tables", json!(n_random));
     // anti-vacuity
     let mut bad = recs.iter().find(|r| r["table"]["fam"] == "POLICY" && r["table"]["rules"].as_array().map(|a| a.len() == 2).unwrap_or(false)).cloned().unwrap_or_else(|| tool_error("no table"));
     bad["obs"][1] = json!({"k": "str", "cp": [120]});
@@ -78,7 +277,7 @@ pub fn check(mut ctx: Ctx, replay: Option<J>) -> ! {
   ctx.cov("distinct_nontrivial", json!(evals.saturating_sub(unspec as u64)));
   ctx.cov("unspecified_cases_accepted", json!(unspec));
   ctx.cov("exhaustive", json!(true));
-  ctx.cov("rule", json!("one case = (decision table, input tuple); tables enumerated by TLC exhaustively over small scopes: every input-entry form x every input value (one rule); one numeric input, entries {-, 1, >= 2}, outputs {10, 20, 30}, every rule list up to the bound, every hit policy and aggregator, with/without output values and default; two output components; two inputs. Loaded through DMN XML. Non-trivial = the specification assigns a definite result"));
+  ctx.cov("rule", json!("one case = (decision table, input tuple); tables enumerated by TLC exhaustively over small scopes: every input-entry form x every input value (one rule); one numeric input, entries {-, 1, >= 2}, outputs {10, 20, 30}, every rule list up to the bound, every hit policy and aggregator, with/without output values and default; two output components; two inputs; plus seeded random tables of up to four inputs (numbers, strings, allowed values), three output components, eight rules with literal / comparison / interval / list / negated entries, every policy. Loaded through DMN XML. Non-trivial = the specification assigns a definite result"));
   ctx.sample(json!({"table_xml": table_model_xml(&recs[recs.len() / 2]["table"])}));
   ctx.assume("the harness's DMN XML writer renders the table faithfully");
   ctx.finish()
